@@ -581,7 +581,8 @@ def check_stamp_order(H, case, kind, pid):
             d = a['stamp'] - x['stamp']
             if abs(d) <= tol * smax:
                 eq += 1
-                if a['t'] > x['t'] and d == 0.0:
+                later = a['t'] > x['t'] or (kind == 'WFQ' and H.mode == 'GRID' and a['t'] == x['t'] and a['G'] > x['G'])
+                if later and d == 0.0:
                     # equal stamps: the earlier arrival (strictly earlier instant) goes first
                     viol.append((pid + '.1', '%s started %s (stamp %r, arrived %r) at t=%r before %s with the same stamp that '
                                  'arrived earlier (%r)' % (kind, a['pkt'], a['stamp'], a['t'], s, x['pkt'], x['t'])))
